@@ -227,6 +227,42 @@ def run_cli(binname, args, home, cwd=None, timeout=120, stdin=None, release=Fals
         return {"rc": "timeout", "out": e.stdout or b"", "err": e.stderr or b""}
 
 
+def prefill_output_dir(out, input_paths):
+    """A reused --csv-output-dir: files of an earlier, longer report with the names this run will write (one per security
+    of the input, plus the fixed ones). What the run leaves must not depend on them."""
+    import csv as _csv
+    os.makedirs(out, exist_ok=True)
+    names = {"aggregate-gains", "total-costs", "yearly-max-costs"}
+    for p in input_paths:
+        try:
+            with open(p, newline="", encoding="utf-8", errors="replace") as f:
+                for i, row in enumerate(_csv.reader(f)):
+                    if i and row and row[0].strip() and "/" not in row[0] and len(row[0]) < 100:
+                        names.add(row[0].strip())
+        except (OSError, _csv.Error):
+            pass
+    stale = "".join("STALE,2001-01-%02d,2001-01-%02d,Buy,$1.00,1,$1.00,-,-,-,1,+$1.00,$1.00,$1.00,Default,stale row %d\n" % (1 + k % 28, 1 + k % 28, k)
+                    for k in range(400))
+    for n in names:
+        try:
+            with open(os.path.join(out, n + ".csv"), "w") as f:
+                f.write(stale)
+        except OSError:
+            pass
+    return stale.encode()
+
+
+def drop_untouched(out, stale):
+    """Removes the pre-filled files the run did not write to at all (not part of its output)."""
+    for root, _, files in os.walk(out):
+        for fn in files:
+            p = os.path.join(root, fn)
+            with open(p, "rb") as f:
+                same = f.read() == stale
+            if same:
+                os.remove(p)
+
+
 def pmap(fn, items, nproc=None):
     with ThreadPoolExecutor(max_workers=nproc or NPROC) as ex:
         return list(ex.map(fn, items))
